@@ -299,6 +299,9 @@ func c10Make(r *prng.R, pr *c10Params) (*c10In, string) {
 			g.Script = dataScript(r, true, r.Intn(300))
 		case k < 17:
 			g.Script = dataScript(r, r.Bool(), -1)
+			if pr.count <= 20 && r.Chance(1, 3) { // a data output beyond the readers' 16 KiB chunk size (estimation clones through the wire format)
+				g.Script = dataScript(r, r.Bool(), prng.Pick(r, []int{16384, 16390, 20000, 40000}))
+			}
 		case k < 19:
 			g.Script = nonDataScript(r, 1+r.Intn(60))
 		default:
